@@ -32,6 +32,7 @@ func runC16(p *Prog, r *Report) {
 	c16Asserts(p, r)
 	c16Loops(p, r)
 	c16ResolveOrder(p, r)
+	c16DegreeSymmetry(p, r)
 }
 
 // sccsOf computes the strongly connected components (with at least one cycle) of the call graph restricted to fns.
@@ -1451,4 +1452,77 @@ func c16MultiCounter(l *loopInfo) bool {
 		}
 	}
 	return true
+}
+
+// R16.2-degree-symmetry: a cycle detector that counts in-degrees (Kahn) is only right when the count and the drain are
+// symmetric: one increment per edge while counting, one decrement per edge while draining — both unconditional within
+// their loop bodies. A conditional increment (e.g. "count each distinct predecessor once") with an unconditional
+// decrement lets a duplicated edge drive a cyclic node's degree to zero, the cycle goes unreported and the resolver
+// then inlines it forever.
+func c16DegreeSymmetry(p *Prog, r *Report) {
+	const rule = "R16.2-degree-symmetry"
+	n := 0
+	for _, fn := range p.Funcs {
+		if fnPkgPath(fn) != pResolved || fn.Parent() != nil {
+			continue
+		}
+		type upd struct {
+			mu  *ssa.MapUpdate
+			inc bool
+		}
+		byMap := map[ssa.Value][]upd{}
+		forEachInstr(fn, func(in ssa.Instruction) {
+			mu, ok := in.(*ssa.MapUpdate)
+			if !ok {
+				return
+			}
+			bo, ok := mu.Value.(*ssa.BinOp)
+			if !ok || (bo.Op != token.ADD && bo.Op != token.SUB) {
+				return
+			}
+			if k, ok := constInt(bo.Y); !ok || k != 1 {
+				return
+			}
+			lk, ok := bo.X.(*ssa.Lookup)
+			if !ok || lk.X != mu.Map || lk.Index != mu.Key {
+				return
+			}
+			byMap[mu.Map] = append(byMap[mu.Map], upd{mu, bo.Op == token.ADD})
+		})
+		loops := loopsOf(fn)
+		for _, ups := range byMap {
+			hasInc, hasDec := false, false
+			for _, u := range ups {
+				if u.inc {
+					hasInc = true
+				} else {
+					hasDec = true
+				}
+			}
+			if !hasInc || !hasDec {
+				continue
+			}
+			for _, u := range ups {
+				n++
+				l := innermostLoop(loops, u.mu.Block())
+				uncond := l != nil
+				if l != nil {
+					for _, pred := range l.Header.Preds {
+						if l.Body[pred] && !u.mu.Block().Dominates(pred) {
+							uncond = false
+						}
+					}
+				}
+				what := "decrement"
+				if u.inc {
+					what = "increment"
+				}
+				r.Check(uncond, rule, fnQual(fn)+":degree-"+what, p.pos(u.mu.Pos()), "one "+what+" per edge, unconditionally",
+					"in "+fnShort(fn)+" the in-degree "+what+" is not executed for every edge visited by its loop while its counterpart is: counting and draining disagree on duplicated edges, so a cycle referenced twice from one type is not reported and resolution recurses without end")
+			}
+		}
+	}
+	if n == 0 {
+		r.Undec(rule, "resolved:degree-table", "-", "no in-degree table with matching increments and decrements found in the resolver (the cycle detector changed shape)")
+	}
 }
